@@ -242,9 +242,17 @@ def gen_sequence(rng, env, maxlen=30, probe_null=True):
                 add("conv", "op conv %d %d %d %s" % (h, dim, nk, " ".join(str(0.5 * x) for x in range(nk))), [call(h, "(AConvolve %d %d)" % (dim, nk))])
         elif c < 21:
             p = list(range(nd)); rng.shuffle(p)
-            if rng.chance(0.35) and nd >= 1: p[rng.below(nd)] = rng.choice([nd, p[0]])       # out of range or duplicate
+            if rng.chance(0.4) and nd >= 1:
+                how = rng.choice(["range", "dup", "big", "bigid", "bigid"])
+                j = rng.below(nd)
+                if how == "range": p[j] = nd
+                elif how == "dup": p[j] = p[0]
+                elif how == "big": p[j] = p[j] + 2 ** 32 * rng.choice([1, 2, 2 ** 31 - 1])      # right low 32 bits, wrong value
+                else:
+                    p = list(range(nd)); p[j] = j + 2 ** 32 * rng.choice([1, 3, 2 ** 31])       # the identity in the low 32 bits of every entry
             valid = sorted(p) == list(range(nd))
-            add("perm", "op perm %d %s" % (h, " ".join(map(str, p))), [call(h, "(APermute %s)" % cl(p))])
+            # the model's entries are nat: an entry beyond 2^32 is handed to it as a small out-of-range stand-in (it only asks "< ndim?")
+            add("perm", "op perm %d %s" % (h, " ".join(map(str, p))), [call(h, "(APermute %s)" % cl([min(v, nd + 7) for v in p]))])
             if valid: st["dims"] = [st["dims"][j] for j in p]
         elif c < 23:
             rr = rng.below(2)
